@@ -385,6 +385,13 @@ func (sc *SubCache[EntityT, ExcerptT, CacheT]) Resolve(id entity.Id) (CacheT, er
 	cached = sc.makeCached(e, sc.entityUpdated)
 
 	sc.mu.Lock()
+	// another goroutine may have loaded the same entity while we were reading it: there has to be
+	// a single instance, everybody gets the one that made it into the cache first
+	if winner, ok := sc.cached[id]; ok {
+		sc.lru.Get(id)
+		sc.mu.Unlock()
+		return winner, nil
+	}
 	sc.cached[id] = cached
 	sc.lru.Add(id)
 	sc.mu.Unlock()
